@@ -109,8 +109,11 @@ theorem intToBytes_of_not_fits (n bo sign x) (h : ¬ fitsInt n sign x = true) :
 theorem fitsInt_unsigned (n x) : fitsInt n false x = true ↔ (0 ≤ x ∧ x < ((256 ^ n : Nat) : Int)) := by
   simp [fitsInt]
 
-theorem fitsInt_signed (n x) : fitsInt n true x = true ↔
+theorem fitsInt_signed (n x) (hn : n ≠ 0) : fitsInt n true x = true ↔
     (-((256 ^ n : Nat) : Int) ≤ 2 * x ∧ 2 * x < ((256 ^ n : Nat) : Int)) := by
+  simp [fitsInt, hn]
+
+theorem fitsInt_signed_zero (x) : fitsInt 0 true x = true ↔ (x = 0 ∨ x = -1) := by
   simp [fitsInt]
 
 theorem intToBytes_ok (n bo sign x bs) (h : intToBytes n bo sign x = .ok bs) :
@@ -127,7 +130,8 @@ private theorem emod_neg_range (x M : Int) (h1 : -M ≤ x) (h2 : x < 0) : x % M 
   rw [← this, Int.add_emod_right]
 
 /-- decoding what `to_bytes` produced gives the value back -/
-theorem intFromBytes_intToBytes (n bo sign x bs) (h : intToBytes n bo sign x = .ok bs) :
+theorem intFromBytes_intToBytes (n bo sign x bs) (h : intToBytes n bo sign x = .ok bs)
+    (hn0 : sign = true → n ≠ 0) :
     intFromBytes bo sign bs = x ∧ bs.length = n ∧ isBytes bs = true := by
   obtain ⟨hf, rfl⟩ := intToBytes_ok _ _ _ _ _ h
   refine ⟨?_, bytesOf_length _ _ _, bytesOf_isBytes _ _ _⟩
@@ -145,7 +149,7 @@ theorem intFromBytes_intToBytes (n bo sign x bs) (h : intToBytes n bo sign x = .
     have : (x.toNat : Int) = x := Int.toNat_of_nonneg hf.1
     have h2 : x.toNat % M = x.toNat := Nat.mod_eq_of_lt (by omega)
     rw [h2, this]
-  · rw [fitsInt_signed, hM] at hf
+  · rw [fitsInt_signed _ _ (hn0 rfl), hM] at hf
     simp only [true_and]
     by_cases hx : 0 ≤ x
     · have e : x % (M : Int) = x := Int.emod_eq_of_lt hx (by omega)
@@ -179,7 +183,7 @@ theorem intToBytes_intFromBytes (bo sign) (data : List Nat) (h : isBytes data = 
     obtain ⟨hs, h2, hl⟩ := hc
     subst hs
     have hf : fitsInt data.length true ((u : Int) - (M : Int)) = true := by
-      rw [fitsInt_signed, hM]; omega
+      rw [fitsInt_signed _ _ (by omega), hM]; omega
     rw [intToBytes_of_fits _ _ _ _ hf, hM]
     have e : ((u : Int) - (M : Int)) % (M : Int) = u := by
       rw [emod_neg_range _ _ (by omega) (by omega)]; omega
@@ -188,12 +192,14 @@ theorem intToBytes_intFromBytes (bo sign) (data : List Nat) (h : isBytes data = 
     have hf : fitsInt data.length sign (u : Int) = true := by
       cases sign
       · rw [fitsInt_unsigned, hM]; omega
-      · rw [fitsInt_signed, hM]
-        simp only [true_and, not_and, Nat.not_lt, Nat.le_zero] at hc
-        by_cases h2 : 2 * u ≥ M
-        · have := hone (by have := hc h2; omega)
-          omega
-        · omega
+      · simp only [true_and, not_and, Nat.not_lt, Nat.le_zero] at hc
+        by_cases hl0 : data.length = 0
+        · have := hone hl0
+          rw [hl0, fitsInt_signed_zero]; omega
+        · rw [fitsInt_signed _ _ hl0, hM]
+          by_cases h2 : 2 * u ≥ M
+          · have := hc h2; omega
+          · omega
     rw [intToBytes_of_fits _ _ _ _ hf, hM]
     have e : (u : Int) % (M : Int) = u := Int.emod_eq_of_lt (by omega) (by omega)
     rw [e, Int.toNat_natCast, hb]
